@@ -2,6 +2,9 @@
  * links it).  Reads an operation script on stdin, prints one JSON line per
  * operation:
  *   H d1 d2 ...     register the driver's receive callback for these DLCIs
+ *   I               sercomm_init() (only with argv[1] = "lateinit": the driver then does not
+ *                   initialise at start, so that callbacks can be registered before the
+ *                   first initialisation, an order the API accepts)
  *   S dlci hex      sercomm_sendmsg(dlci, payload)
  *   P n             n x sercomm_drv_pull
  *   R hex           sercomm_drv_rx_char for every octet
@@ -55,11 +58,12 @@ static void feed(uint8_t ch, int first)
 	printf("%s[%d,[%s]]", first ? "" : ",", rc, dlvbuf);
 }
 
-int main(void)
+int main(int argc, char **argv)
 {
 	static char line[1 << 18];
 	static uint8_t buf[1 << 16];
-	sercomm_init();
+	if (!(argc > 1 && !strcmp(argv[1], "lateinit")))
+		sercomm_init();
 	while (fgets(line, sizeof(line), stdin)) {
 		char *p = line + 1;
 		size_t n, i;
@@ -72,6 +76,10 @@ int main(void)
 				p = e;
 				printf("{\"op\":\"H\",\"dlci\":%ld,\"rc\":%d}\n", d, sercomm_register_rx_cb((uint8_t)d, rx_cb));
 			}
+			break;
+		case 'I':
+			sercomm_init();
+			printf("{\"op\":\"I\"}\n");
 			break;
 		case 'S': {
 			long d = strtol(p, &p, 10);
